@@ -13,6 +13,7 @@ CONSTANTS
   BinStarts = {0, 200}
   BinStrides = {57}
   BinNs = {1, 31, 32, 62}
+  UseForced = FALSE
   NFaults = 0
 INVARIANT Laws
 CHECK_DEADLOCK FALSE
